@@ -357,8 +357,8 @@ def run_case(case):
             obs["cli_runs"] = 1
             if p.returncode != 0:
                 err = f"exit status {p.returncode}: {p.stderr.strip().splitlines()[-1:]}"
-                if "AttributeError" in p.stderr and rgb_kf:
-                    err = "AttributeError (RGB with scaling options)"
+                if rgb_kf:
+                    err = "refused (RGB with scaling options): " + err
         else:
             del _WRITES[:]
             try:
@@ -372,7 +372,7 @@ def run_case(case):
         if err:
             v.append({"kind": "conversion-of-admissible-input-failed",
                       "detail": f"{ctx}: {err}",
-                      **({"known": KF_RGB} if rgb_kf and "AttributeError" in err else {})})
+                      **({"known": KF_RGB} if rgb_kf else {})})
             return {"violations": v, "obs": obs}
         obs["conversions"] = 1
         if not use_cli:
